@@ -565,6 +565,36 @@ theorem wireFieldsLe_eq_relLe (eq : Ty → GVal → GVal → Bool) (wr : WValue 
             simp only [relLe, hna, hnb, Bool.false_or, Bool.not_false, Bool.true_and]
             rw [hcongr, htail, hhead]
 
+/-- the identifiers `ToWire` emits for a struct with pairwise different field identifiers are
+pairwise different: the size of the field map is the number of entries. -/
+theorem toWireFields_distinct : ∀ (fs : List Field) (gs : List GVal) (ws : List (UInt16 × WValue)),
+    idsDistinct fs = true → decodedFields dv fs gs = true → toWireFields tw fs gs = .ok ws →
+    distinctIds ws = ws.length := by
+  intro fs
+  induction fs with
+  | nil => intro gs ws _ hd h; cases gs <;> simp [toWireFields] at h <;> subst h <;> rfl
+  | cons f fs ih =>
+    intro gs ws hids hd h
+    cases gs with
+    | nil => simp [decodedFields] at hd
+    | cons g gs =>
+      simp only [decodedFields, Bool.and_eq_true] at hd
+      simp only [idsDistinct] at hids
+      rw [pairwiseNot_iff] at hids
+      rcases toWireFields_cons_decoded tw dv f fs g gs ws hd.1 h with ⟨_, ht⟩ | ⟨_, w, rest, _, ht, rfl⟩
+      · exact ih gs ws hids.2 hd.2 ht
+      · have hfresh : rest.any (fun p => p.1 == f.id) = false := by
+          rw [List.any_eq_false]
+          intro p hp
+          obtain ⟨f', hf', hid⟩ := toWireFields_ids tw fs gs rest ht p hp
+          have := hids.1 f' hf'
+          intro heq
+          simp only [beq_iff_eq] at heq
+          rw [← hid] at heq
+          simp [heq] at this
+        simp only [distinctIds, hfresh, Bool.false_eq_true, ↓reduceIte, List.length_cons]
+        rw [ih gs rest hids.2 hd.2 ht]; omega
+
 /-- "set on the left ⇒ set and equal on the right" plus equally many set fields is the generated
 field-by-field comparison. -/
 theorem countSetG_cons (a : GVal) (as : List GVal) :
@@ -852,7 +882,7 @@ theorem struct_case (fs : List Field) (hids : idsDistinct fs = true) (as bs : Li
     (hda : decodedFields (decodedV env fuel) fs as = true) (hdb : decodedFields (decodedV env fuel) fs bs = true)
     (ha : toWireFields (toWire env fuel) fs as = .ok wa) (hb : toWireFields (toWire env fuel) fs bs = .ok wb) :
     fieldsEq (equalsG env fuel) fs as bs =
-      (wa.length == wb.length &&
+      (distinctIds wa == distinctIds wb &&
         wa.all fun f =>
           match lookupLast f.1 wa, lookupLast f.1 wb with
           | some lv, some rv => wireEq fuel lv rv
@@ -861,7 +891,9 @@ theorem struct_case (fs : List Field) (hids : idsDistinct fs = true) (as bs : Li
     fs as bs wa wb hids hda hdb ha hb
     (fun f _ a b va vb h1 h2 h3 h4 => ih f.ty a b va vb h1 h2 h3 h4)
   unfold wireFieldsLe at hle
-  rw [hle, toWireFields_len' (toWire env fuel) (decodedV env fuel) fs as wa hda ha,
+  rw [hle, toWireFields_distinct (toWire env fuel) (decodedV env fuel) fs as wa hids hda ha,
+    toWireFields_distinct (toWire env fuel) (decodedV env fuel) fs bs wb hids hdb hb,
+    toWireFields_len' (toWire env fuel) (decodedV env fuel) fs as wa hda ha,
     toWireFields_len' (toWire env fuel) (decodedV env fuel) fs bs wb hdb hb]
   apply Bool.eq_iff_iff.mpr
   constructor
